@@ -632,7 +632,7 @@ Section SampleProofs.
   Theorem reverse_sample_linear_map n c (L0 : mat) conds Ls z0 zs :
     length Ls = length conds -> length zs = length conds ->
     markov_sample true n c (mzero n c) L0 (map (c_nooff n c) conds) Ls (z0 :: zs)
-    = Some (map (fun row => bcast n c (wsum n row (rev zs ++ [z0])))
+    = Some (map (fun row => wsum n c row (rev zs ++ [z0]))
                 (rev_rows n (combine conds Ls) L0)).
   Proof.
     intros HL Hz. rewrite markov_sample_reverse by (rewrite ?map_length; assumption). f_equal.
@@ -644,15 +644,12 @@ Section SampleProofs.
   Theorem forward_sample_linear_map n c (L0 : mat) conds Ls z0 zs :
     length Ls = length conds -> length zs = length conds ->
     markov_sample false n c (mzero n c) L0 (map (c_nooff n c) conds) Ls (z0 :: zs)
-    = Some (zipw (fun row zr => bcast n c (wsum n row zr))
+    = Some (zipw (fun row zr => wsum n c row zr)
                  ([L0] :: fwd_rows_from n [L0] (combine conds Ls))
                  ([z0] :: fwd_draws [z0] zs)).
   Proof.
     intros HL Hz. rewrite markov_sample_forward by (rewrite ?map_length; assumption). f_equal.
-    assert (H0 : n_sample n c (mzero n c) L0 z0 = bcast n c (wsum n [L0] [z0])).
-    { pose proof (rev_chain_linear_part n c [] L0 z0) as Hb.
-      cbn [map rev_chain rev_rows app] in Hb. inversion Hb as [Hb1]. exact Hb1. }
-    cbn [zipw]. rewrite H0. f_equal.
+    cbn [zipw]. rewrite n_sample_lin_is_wsum. f_equal.
     rewrite zip3_map_nooff. rewrite scan_linear_part.
     rewrite zip3_map_draw by assumption. rewrite zip3_map_pair by assumption. reflexivity.
   Qed.
@@ -722,28 +719,84 @@ Section SampleProofs.
   Qed.
 
   (* ================================================================
-     The draw is shared by all c columns (isotropic model: (L z)[:, None]):
-     the linear part of every sample has identical columns ... *)
-  Theorem linear_part_columns_identical n c (L0 : mat) conds Ls z0 zs xs :
-    length Ls = length conds -> length zs = length conds ->
-    markov_sample true n c (mzero n c) L0 (map (c_nooff n c) conds) Ls (z0 :: zs) = Some xs ->
-    forall x, In x xs -> forall i a b, i < n -> a < c -> b < c -> mget x i a = mget x i b.
+     Columns (isotropic model: state dimensions) are independent: column a of
+     every sample of the linear part is the SAME block matrix applied to column a
+     of the draws, so the Gram matrix over the flattened n x c state is
+     (W W^T) (x) I_c = joint covariance (x) I_c. *)
+  Lemma mget_mcol n a (z : mat) i j : i < n -> j < 1 -> mget (mcol n a z) i j = mget z i a.
+  Proof. intros Hi Hj. unfold mcol. rewrite mget_mk by assumption. reflexivity. Qed.
+
+  Lemma wsum_column n c a ws zs : a < c ->
+    mcol n a (wsum n c ws zs) = wsum n 1 ws (map (mcol n a) zs).
   Proof.
-    intros HL Hz Hs x Hx i a b Hi Ha Hb.
-    rewrite reverse_sample_linear_map in Hs by assumption. inversion Hs; subst xs. clear Hs.
-    apply in_map_iff in Hx. destruct Hx as [row [Hrow _]]. subst x.
-    rewrite !mget_bcast by assumption. reflexivity.
+    intro Ha. revert zs. induction ws as [|W ws IH]; intro zs.
+    - cbn [wsum]. unfold mcol. unfold mzero at 2. apply mk_ext. intros i j Hi Hj.
+      apply mget_mzero; assumption.
+    - destruct zs as [|z zs]; cbn [wsum map].
+      + unfold mcol. unfold mzero at 2. apply mk_ext. intros i j Hi Hj.
+        apply mget_mzero; assumption.
+      + rewrite <- IH. unfold mcol at 1. unfold madd at 2. apply mk_ext. intros i j Hi Hj.
+        rewrite mget_madd by assumption.
+        rewrite (mget_mmul n n c W z) by assumption. rewrite (mget_mmul n n 1 W) by assumption.
+        rewrite mget_mcol by assumption. f_equal.
+        apply vsum_ext. intros l Hl. rewrite mget_mcol by assumption. reflexivity.
   Qed.
 
-  (* ... so for c >= 2 the Gram matrix of the map draws -> (flattened n x c
-     state) has the entry Cov[i,i] between two DIFFERENT columns, where the
-     isotropic law Cov (x) I_c has 0: witness n = 1, c = 2, L = Cov = [[1]]. *)
-  Theorem iso_cross_dimension_gram_refuted :
+  Theorem sample_columns_independent n c (L0 : mat) conds Ls z0 zs xs :
+    length Ls = length conds -> length zs = length conds ->
+    markov_sample true n c (mzero n c) L0 (map (c_nooff n c) conds) Ls (z0 :: zs) = Some xs ->
+    forall a, a < c ->
+    map (mcol n a) xs
+    = map (fun row => wsum n 1 row (map (mcol n a) (rev zs ++ [z0])))
+          (rev_rows n (combine conds Ls) L0).
+  Proof.
+    intros HL Hz Hs a Ha.
+    rewrite reverse_sample_linear_map in Hs by assumption. inversion Hs; subst xs. clear Hs.
+    rewrite map_map. apply map_ext. intro row. apply wsum_column. exact Ha.
+  Qed.
+
+  (* Gram entries of one sample_flat over the flattened n x c state, by unit
+     draws e_{l,b}:  sum_{l,b} M[(i,a),(l,b)] M[(i',a'),(l,b)] = (L L^T)[i,i'] [a = a'] *)
+  Lemma unit_response n c (L : mat) l b i a : i < n -> a < c -> l < n ->
+    mget (n_sample n c (mzero n c) L (unit_draw n c l b)) i a = mget L i l * delta a b.
+  Proof.
+    intros Hi Ha Hl. unfold n_sample. rewrite mget_madd by assumption.
+    rewrite mget_mzero by assumption. rewrite mget_mmul by assumption.
+    rewrite (vsum_ext n _ (fun k => (mget L i k * delta a b) * delta k l)).
+    2:{ intros k Hk. unfold unit_draw. rewrite mget_mk by assumption. ring. }
+    rewrite (vsum_delta_r n l (fun k => mget L i k * delta a b) Hl). ring.
+  Qed.
+
+  Theorem sample_flat_gram_is_kronecker n c (L : mat) i i' a a' :
+    i < n -> i' < n -> a < c -> a' < c ->
+    vsum n (fun l => vsum c (fun b =>
+      mget (n_sample n c (mzero n c) L (unit_draw n c l b)) i a
+      * mget (n_sample n c (mzero n c) L (unit_draw n c l b)) i' a'))
+    = mget (mmul n n n L (mtr n n L)) i i' * delta a a'.
+  Proof.
+    intros Hi Hi' Ha Ha'.
+    rewrite mget_mmul by assumption. rewrite <- vsum_scale_r.
+    apply vsum_ext. intros l Hl.
+    rewrite (vsum_ext c _ (fun b => delta a b * (mget L i l * mget L i' l * delta a' b))).
+    2:{ intros b Hb. rewrite !unit_response by assumption. ring. }
+    rewrite (vsum_delta_l c a (fun b => mget L i l * mget L i' l * delta a' b) Ha).
+    rewrite mget_mtr by assumption.
+    unfold delta. rewrite (Nat.eqb_sym a' a). ring.
+  Qed.
+
+  (* Documentation of the repaired defect (3219804): the former sample_flat of
+     the isotropic model broadcast ONE draw of length n to all c columns; its
+     Gram matrix has Cov[i,i] between two different columns, where Cov (x) I_c
+     has 0 (witness n = 1, c = 2, L = Cov = [[1]]). *)
+  Definition n_sample_shared (n c : nat) (mean L z : mat) : mat :=
+    madd n c mean (mk n c (fun i _ => mget (mmul n n 1 L z) i 0)).
+
+  Theorem shared_draw_cross_dimension_gram_refuted :
     exists (n c : nat) (L0 Cov : mat) (i a b : nat),
       i < n /\ a < c /\ b < c /\ a <> b /\
       mmul n n n L0 (mtr n n L0) = canon n n Cov /\
-      vsum n (fun l => mget (n_sample n c (mzero n c) L0 (unit_col n l)) i a
-                       * mget (n_sample n c (mzero n c) L0 (unit_col n l)) i b)
+      vsum n (fun l => mget (n_sample_shared n c (mzero n c) L0 (unit_draw n 1 l 0)) i a
+                       * mget (n_sample_shared n c (mzero n c) L0 (unit_draw n 1 l 0)) i b)
       = mget Cov i i /\
       mget Cov i i <> 0.
   Proof.
@@ -816,9 +869,10 @@ Section SampleProofs.
   Qed.
   (* the zero-draw hypotheses are met by the zero column; with fitting list
      lengths the sampler returns a value *)
-  Example zero_col_satisfiable n : zero_col n (mzero n 1 : mat) /\ Forall (zero_col n) [mzero n 1 : mat].
+  Example zero_draw_satisfiable n c :
+    zero_draw n c (mzero n c : mat) /\ Forall (zero_draw n c) [mzero n c : mat].
   Proof.
-    assert (Hz : zero_col n (mzero n 1 : mat)) by (intros i Hi; apply mget_mzero; lia).
+    assert (Hz : zero_draw n c (mzero n c : mat)) by (intros i a Hi Ha; apply mget_mzero; assumption).
     split; [exact Hz|]. constructor; [exact Hz|constructor].
   Qed.
   Example markov_sample_defined n c (m0 L0 : mat) (K : cond) (L z0 z1 : mat) reverse :
